@@ -49,6 +49,7 @@ def load_known():
 
 
 # checks whose verdicts use the enumerated reference interleaving semantics (Spec/SC.lean via Oracle/SCEnumV.lean)
+REFINE_USERS = {"C05", "C07"}
 SC_ORACLE_USERS = {"C01", "C04", "C05", "C06", "C07", "C08", "C09", "C10", "C11", "C15", "C17", "C18", "C19", "C20"}
 
 
@@ -82,17 +83,22 @@ class Ctx:
             self.cov["discharged"] = 0
             self.violation("proof-obligation", {"broken": ["proof audit skipped (LV_DEV_SKIP_PROOFS=1)"]}, found_input=False)
             return False
-        # the checks that judge outcomes against the enumerated reference semantics also rest on the theorems that
-        # the enumerator is sound and complete (Props/Oracle.lean): they are audited with the property's own
-        uses_oracle = pid in SC_ORACLE_USERS
-        if uses_oracle:
-            theorems = list(theorems) + json.load(open(os.path.join(lvlib.VERIF, "checks", "theorems.json")))["ORACLE"]
-        lvlib.build_lean([f"LoomVerif.Props.{pid}", "lvdriver"] + (["LoomVerif.Props.Oracle"] if uses_oracle else []))
+        # theorems shared by several properties are audited with the property's own: the soundness/completeness of
+        # the reference enumerator (Props/Oracle.lean) for every check that judges outcomes against it, and the
+        # refinement "twin runs over the lock fragment are reference executions" (Props/Refine.lean) for the lock
+        # and deadlock properties
+        shared = [(k, mod) for k, mod, users in (("ORACLE", "Oracle", SC_ORACLE_USERS), ("REFINE", "Refine", REFINE_USERS))
+                  if pid in users]
+        table = json.load(open(os.path.join(lvlib.VERIF, "checks", "theorems.json")))
+        theorems = list(theorems)
+        for k, _mod in shared:
+            theorems += table[k]
+        lvlib.build_lean([f"LoomVerif.Props.{pid}", "lvdriver"] + [f"LoomVerif.Props.{mod}" for _k, mod in shared])
         audit = os.path.join(lvlib.LEAN_DIR, "LoomVerif", "Audit", f"{pid}.lean")
         cmd = ["lake", "env", "lean", audit]
         r = subprocess.run(cmd, cwd=lvlib.LEAN_DIR, stdout=subprocess.PIPE, stderr=subprocess.STDOUT, text=True)
-        if uses_oracle:
-            r2 = subprocess.run(["lake", "env", "lean", os.path.join(lvlib.LEAN_DIR, "LoomVerif", "Audit", "Oracle.lean")],
+        for _k, mod in shared:
+            r2 = subprocess.run(["lake", "env", "lean", os.path.join(lvlib.LEAN_DIR, "LoomVerif", "Audit", mod + ".lean")],
                                 cwd=lvlib.LEAN_DIR, stdout=subprocess.PIPE, stderr=subprocess.STDOUT, text=True)
             r.stdout += "\n" + r2.stdout
             r.returncode = r.returncode or r2.returncode
